@@ -211,14 +211,24 @@ impl Property for C17 {
             10 => (gen::corpus_lib(&mut rng).to_string(), true),
             _ => (gen::lib_program(&mut rng), true),
         };
-        if !lib && rng.chance(1, 3) {
-            let after = match rng.below(6) {
+        // dense family: one input at many capacities (a defect that needs "entry A evicted, entry B still there" shows
+        // only in a band of capacities whose place depends on the input), with state-carrying trivia after the header
+        let dense = rng.chance(1, 6);
+        if !lib && (dense || rng.chance(1, 3)) {
+            let after = match if dense { rng.below(5) } else { rng.below(8) } {
                 0 => gen::pragma_lines(&mut rng),
                 1 => "`pragma protect begin_protected\n  wire env;\n`pragma protect end_protected\n".to_string(),
                 2 => "/* after header */\n".to_string(),
                 3 => "`timescale 1ns/1ps\n".to_string(),
+                4 | 5 => gen::protected_envelope(&mut rng),
                 _ => String::new(),
             };
+            if after.contains("`pragma") && rng.coin() {
+                // a further pragma later in the module
+                if let Some(i) = text.rfind("endmodule") {
+                    text.insert_str(i, if rng.coin() { "`pragma reset protect\n  wire after_reset;\n" } else { "`pragma foo\n" });
+                }
+            }
             text = gen::rewrap_nonansi_with(&text, &after);
         }
         if rng.chance(1, 4) {
@@ -255,6 +265,18 @@ impl Property for C17 {
         caps.push(1 + rng.usize_below(2048));
         caps.push(17 + rng.usize_below(500));
         caps.push(300 + rng.usize_below(1200));
+        if dense {
+            // log-uniform over 1..8192: 4 draws per octave
+            for k in 0..13u32 {
+                for _ in 0..4 {
+                    let c = (1usize << k) + rng.usize_below(1usize << k);
+                    if !caps.contains(&c) {
+                        caps.push(c);
+                    }
+                }
+            }
+            sc.family = format!("{}dense-capacities", if sc.family.is_empty() { String::new() } else { format!("{}+", sc.family) });
+        }
         for c in caps {
             let mut k = base.clone();
             k.memo_capacity = Some(c);
